@@ -258,12 +258,15 @@ asn1c_emit_constraint_tables(arg_t *arg, int got_size) {
 	int use_table;
 
 	ct = arg->expr->combined_constraints;
-	if(!ct) return 0;
 
 	etype = _find_terminal_type(arg);
 
-	/* Without the checking code, only the PER character maps use these. */
-	if((arg->flags & A1C_NO_CONSTRAINTS)
+	/*
+	 * Without the checking code, only the PER character maps use these.
+	 * A type without constraints has the alphabet of its base type,
+	 * which may be a union of ranges as well (NumericString).
+	 */
+	if((!ct || (arg->flags & A1C_NO_CONSTRAINTS))
 	&& !((arg->flags & A1C_GEN_PER) && (etype & ASN_STRING_KM_MASK)))
 		return 0;
 
@@ -414,7 +417,7 @@ asn1c_emit_constraint_tables(arg_t *arg, int got_size) {
 		 */
 	}
 
-	if(arg->flags & A1C_NO_CONSTRAINTS) {
+	if(!ct || (arg->flags & A1C_NO_CONSTRAINTS)) {
 		asn1constraint_range_free(range);
 		return 1;
 	}
